@@ -67,7 +67,21 @@ fn cmd_run(args: &[String]) -> i32 {
         let input = bytes_of(&c["input"]);
         observe::set_current(&format!("{} {}", id, name));
         match calls::call(name, &a, &input) {
-            Some(o) => writeln!(out, "{}", out_json(&id, &o, input.len())).unwrap(),
+            Some(o) => {
+                // a parser is a function of the bytes: the same bytes at ANOTHER address (a fresh, differently aligned copy),
+                // after an unrelated call in between, must give the same relative result
+                let mut j = out_json(&id, &o, input.len());
+                if input.len() <= 4096 {
+                    let _ = calls::call("parse_tls_plaintext", &a, &[22, 3, 3, 0, 4, 14, 0, 0, 0]);
+                    let mut shifted = Vec::with_capacity(input.len() + 3);
+                    shifted.extend_from_slice(&[0xAA, 0xBB, 0xCC]);
+                    shifted.extend_from_slice(&input);
+                    if let Some(o2) = calls::call(name, &a, &shifted[3..]) {
+                        if o2.res != o.res || o2.rem_ok != o.rem_ok { j["again_differs"] = json!(true); j["again"] = o2.res; }
+                    }
+                }
+                writeln!(out, "{}", j).unwrap()
+            }
             None => writeln!(out, "{}", json!({"id": id, "unknown_fn": name})).unwrap(),
         }
         n += 1;
